@@ -99,6 +99,11 @@ Definition apply_steps (f : ltxrec) : list cstep :=
 Definition snapshot_steps (f : ltxrec) : list cstep :=
   [KLtxRename f; KLtxRemoveOthers] ++ map (fun kv => KWritePage (fst kv) (snd kv)) (l_pages f) ++ [KTruncate (l_commit f)].
 
+(* Drop (db.go Drop): the tombstone file (commit size 0, no pages) is renamed into place, then the database
+   file and the journal are removed.  A removed database file and one cut to zero pages are the same thing to
+   Open (initFromDatabaseHeader returns early for both), so the removal is the cut to 0. *)
+Definition drop_steps (f : ltxrec) : list cstep := [KLtxRename f; KTruncate 0; KJournalEnd].
+
 (* ---- correspondence: a crash directory as the harness finds it ---- *)
 (* pages of the file as (page number, page) pairs; journal records; transaction files *)
 Definition mk_file (n : N) (pages : list (N * pg)) : file :=
